@@ -7,6 +7,7 @@ P: automata.peeking push/peek/__next__ (the `sent` accounting every limit is com
    the repeat -> final prefix of dfa_base.delegate and the head of its cycle loop (one count per pass).
 B: every library parser machine x limits {0,1,2,n/2,n-1,n,n+1,2n} x inputs; repeat counts on dfa.
 """
+from .util import distinct_keys
 import ast
 import random
 import struct
@@ -248,7 +249,8 @@ def bounded(tier, seed):
                 ref = None
             else:
                 ref = run_machine(mk(**kw), inp + extra)
-            for L in sorted(set([0, 1, 2, n // 2, max(n - 1, 0), n, n + 1, 2 * n + 1])):
+            limits = sorted(set([0, 1, 2, n // 2, max(n - 1, 0), n, n + 1, 2 * n + 1])) if tier == 'quick' else list(range(0, n + 3)) + [2 * n + 1]
+            for L in limits:
                 ev += 1
                 try:
                     m = mk(terminal=True, limit=L)
@@ -285,7 +287,7 @@ def bounded(tier, seed):
         sep[True] = enip.octets('value', context='value', repeat=1, terminal=True)
         return cpppo.dfa('records', context='rec', initial=tag, repeat=repeat, terminal=True)
     good = lambda i: bytes([0x10 * (i + 1), 1, 0x10 * (i + 1) + 1])
-    for k in range(0, 5):
+    for k in range(0, 5 if tier == 'quick' else 10):
         for bad_at in [None] + list(range(k)):
             stream = b''.join((good(i) if i != bad_at else bytes([0x10 * (i + 1)])) for i in range(k)) + b'\xaa\x01\xab'
             for mode in ('fixed', 'counted'):
@@ -317,8 +319,8 @@ def bounded(tier, seed):
         distinct.add(('frame', ln))
         if not (term and sent == 24 + ln and rest == b'\x99\x98'):
             viol('enip_machine payload length %d' % ln, 'terminal=%r sent=%d rest=%r exc=%r' % (term, sent, rest[:4], exc), 'exactly 24+%d symbols' % ln)
-    return dict(evaluations=ev, distinct_nontrivial=len(distinct),
-                rule='every parser machine of the library (%d machines, several inputs each) x limit in {0,1,2,n/2,n-1,n,n+1,2n+1} on input + 4 extra bytes: '
-                     'terminal => sent <= limit; sent + remaining == total; rest untouched; CPF item lengths 0..8 around the real one; dfa repeat 0..4 fixed and '
+    return dict(evaluations=ev, distinct_nontrivial=len(distinct), distinct_keys=distinct_keys(distinct),
+                rule='every parser machine of the library (%d machines, several inputs each) x limit in {0,1,2,n/2,n-1,n,n+1,2n+1} (quick) / every limit 0..n+2 and 2n+1 (thorough) on input + 4 extra bytes: '
+                     'terminal => sent <= limit; sent + remaining == total; rest untouched; CPF item lengths 0..8 around the real one; dfa repeat 0..4 (quick) / 0..9 (thorough) fixed and '
                      'from a parsed count with a malformed record at each position; enip_machine payload lengths; distinct = distinct (machine, n, limit) etc.' % len(lib),
                 exhaustive=True, samples=samples, violations=violations[:20], seed=seed)
